@@ -281,7 +281,10 @@ def op_strategy(draw, v, led, weights, backend="file", history=()):
             a = draw(anchor_strategy(v, known))
             if a not in [x for x, _ in rules]:
                 rules.append((a, draw(st.sampled_from(ANCHORED_RULE_NAMES))))
-        return ("clear", draw(st.sampled_from(DEFAULT_RULE_NAMES)), rules)
+        op = ("clear", draw(st.sampled_from(DEFAULT_RULE_NAMES)), rules)
+        if draw(st.integers(0, 3)) == 0:
+            op += (True,)        # the caller closed the index object first, then clears that same object
+        return op
     raise AssertionError(kind)
 
 
